@@ -140,6 +140,13 @@ def write_history(history, header=b"%PDF-1.7\n%\xe2\xe3\xcf\xd3\n", tail=b"\n", 
                 nums |= set(range(min(nums), max(nums) + 1)) - ever
             splitter = (lambda n: n % 3 == 0) if rev.get("split") else None
             runs = _runs(nums, rev.get("split"), splitter)
+            # /Index lists the subsections in the order of the stream data, which need not be ascending
+            if index_default:
+                pass  # no /Index entry: one subsection, 0 .. Size-1
+            elif rev.get("index_order") == "reversed":
+                runs = runs[::-1]
+            elif rev.get("index_order") == "rotated":
+                runs = runs[1:] + runs[:1]
             need2 = max([e[1] for e in ents.values()] + [0])
             while need2 >= 256 ** w[1]:
                 w[1] += 1
